@@ -369,3 +369,53 @@ package corerad
 //@   ensures E2 [C12]: forall(k, 0, len(result), exists(i, 0, len(want), exists(j, 0, len(got), isType(want[i], "*ndp.RouteInformation") && isType(got[j], "*ndp.RouteInformation") && riMatch(as(want[i], "*ndp.RouteInformation"), as(got[j], "*ndp.RouteInformation")) && riProblem(result[k], as(want[i], "*ndp.RouteInformation"), as(got[j], "*ndp.RouteInformation")) && result[k].Details == cidrStrOf(as(want[i], "*ndp.RouteInformation").Prefix, as(want[i], "*ndp.RouteInformation").PrefixLength))))
 //@   opt safety [C12]
 //@   opt frame [C12]
+
+// ---- index-wise RDNSS / DNSSL checks (C12) ---------------------------------------------
+
+//@ func ipsStr
+//@   opt trusted formats a list of addresses for a log message
+//@ func sourceLLA
+//@   opt trusted formats the source link-layer address for a log message
+//@ func checkDNSSL$1
+//@   opt trusted strings.Join for a log message
+
+//@ macro serversDiffer(x, y) = len(x.Servers) != len(y.Servers) || exists(js, 0, len(x.Servers), x.Servers[js] != y.Servers[js])
+//@ macro rdnssProblem(p, x, y) = p.Details == "" && ((p.Field == "rdnss_lifetime" && x.Lifetime != y.Lifetime) || (p.Field == "rdnss_servers" && serversDiffer(x, y)))
+//@ macro sameOrdinal(want, i, got, j, tag) = isType(want[i], tag) && isType(got[j], tag) && countTag(arr(want), i, tagOf(tag)) == countTag(arr(got), j, tagOf(tag))
+
+//@ func checkRDNSS
+//@   requires P1: optsOK(want) && optsOK(got)
+//@   assigns new heap(corerad.problems), new mem(corerad.problem), new mem(*ndp.MTU)
+//@   loop 1 invariant D0 [C12]: 0 <= rangeindex1 + 1 && rangeindex1 + 1 <= len(dnsA) && len(dnsA) == len(dnsB) && len(dnsA) > 0 && forall(i, 0, len(dnsA), dnsA[i] != nil && dnsB[i] != nil)
+//@   loop 1 invariant D1 [C12]: forall(k, 0, len(ps), exists(i, 0, len(dnsA), rdnssProblem(ps[k], dnsA[i], dnsB[i])))
+//@   loop 2 invariant D2 [C12]: 0 <= rangeindex2 + 1 && rangeindex2 + 1 <= len(dnsA[i].Servers) && len(dnsA[i].Servers) == len(dnsB[i].Servers) && 0 <= i && i < len(dnsA) && i == rangeindex1 + 1
+//@   loop 2 invariant D3 [C12]: forall(j2, 0, rangeindex2 + 1, dnsA[i].Servers[j2] == dnsB[i].Servers[j2])
+//@   loop 2 invariant D4 [C12]: forall(k, 0, len(ps), exists(i2, 0, len(dnsA), rdnssProblem(ps[k], dnsA[i2], dnsB[i2])))
+//@   ensures E1 [C12]: countTag(arr(want), len(want), tagOf("*ndp.RecursiveDNSServer")) == 0 || countTag(arr(got), len(got), tagOf("*ndp.RecursiveDNSServer")) == 0 ==> len(result) == 0
+//@   ensures E2 [C12]: countTag(arr(want), len(want), tagOf("*ndp.RecursiveDNSServer")) > 0 && countTag(arr(got), len(got), tagOf("*ndp.RecursiveDNSServer")) > 0 && countTag(arr(want), len(want), tagOf("*ndp.RecursiveDNSServer")) != countTag(arr(got), len(got), tagOf("*ndp.RecursiveDNSServer")) ==> len(result) == 1 && result[0].Field == "rdnss_count" && result[0].Details == ""
+//@   ensures E3 [C12]: countTag(arr(want), len(want), tagOf("*ndp.RecursiveDNSServer")) == countTag(arr(got), len(got), tagOf("*ndp.RecursiveDNSServer")) ==> forall(k, 0, len(result), exists(i, 0, len(want), exists(j, 0, len(got), sameOrdinal(want, i, got, j, "*ndp.RecursiveDNSServer") && rdnssProblem(result[k], as(want[i], "*ndp.RecursiveDNSServer"), as(got[j], "*ndp.RecursiveDNSServer")))))
+//@   opt safety [C12]
+//@   opt frame [C12]
+
+//@ macro namesDiffer(x, y) = len(x.DomainNames) != len(y.DomainNames) || exists(js, 0, len(x.DomainNames), x.DomainNames[js] != y.DomainNames[js])
+//@ macro dnsslProblem(p, x, y) = p.Details == "" && ((p.Field == "dnssl_lifetime" && x.Lifetime != y.Lifetime) || (p.Field == "dnssl_domain_names" && namesDiffer(x, y)))
+
+//@ func checkDNSSL
+//@   requires P1: optsOK(want) && optsOK(got)
+//@   assigns new heap(corerad.problems), new mem(corerad.problem), new mem(*ndp.MTU)
+//@   loop 1 invariant D0 [C12]: 0 <= rangeindex1 + 1 && rangeindex1 + 1 <= len(dnsA) && len(dnsA) == len(dnsB) && len(dnsA) > 0 && forall(i, 0, len(dnsA), dnsA[i] != nil && dnsB[i] != nil)
+//@   loop 1 invariant D1 [C12]: forall(k, 0, len(ps), exists(i, 0, len(dnsA), dnsslProblem(ps[k], dnsA[i], dnsB[i])))
+//@   loop 2 invariant D2 [C12]: 0 <= rangeindex2 + 1 && rangeindex2 + 1 <= len(dnsA[i].DomainNames) && len(dnsA[i].DomainNames) == len(dnsB[i].DomainNames) && 0 <= i && i < len(dnsA) && i == rangeindex1 + 1
+//@   loop 2 invariant D3 [C12]: forall(j2, 0, rangeindex2 + 1, dnsA[i].DomainNames[j2] == dnsB[i].DomainNames[j2])
+//@   loop 2 invariant D4 [C12]: forall(k, 0, len(ps), exists(i2, 0, len(dnsA), dnsslProblem(ps[k], dnsA[i2], dnsB[i2])))
+//@   ensures E1 [C12]: countTag(arr(want), len(want), tagOf("*ndp.DNSSearchList")) == 0 || countTag(arr(got), len(got), tagOf("*ndp.DNSSearchList")) == 0 ==> len(result) == 0
+//@   ensures E2 [C12]: countTag(arr(want), len(want), tagOf("*ndp.DNSSearchList")) > 0 && countTag(arr(got), len(got), tagOf("*ndp.DNSSearchList")) > 0 && countTag(arr(want), len(want), tagOf("*ndp.DNSSearchList")) != countTag(arr(got), len(got), tagOf("*ndp.DNSSearchList")) ==> len(result) == 1 && result[0].Field == "dnssl_count" && result[0].Details == ""
+//@   ensures E3 [C12]: countTag(arr(want), len(want), tagOf("*ndp.DNSSearchList")) == countTag(arr(got), len(got), tagOf("*ndp.DNSSearchList")) ==> forall(k, 0, len(result), exists(i, 0, len(want), exists(j, 0, len(got), sameOrdinal(want, i, got, j, "*ndp.DNSSearchList") && dnsslProblem(result[k], as(want[i], "*ndp.DNSSearchList"), as(got[j], "*ndp.DNSSearchList")))))
+//@   opt safety [C12]
+//@   opt frame [C12]
+
+//@ func verifyRAs
+//@   requires P1: a != nil && b != nil && optsOK(a.Options) && optsOK(b.Options)
+//@   assigns new heap(corerad.problems), new mem(corerad.problem), new mem(*ndp.MTU)
+//@   opt safety [C12]
+//@   opt frame [C12]
